@@ -1,0 +1,39 @@
+//go:build verif
+
+package impl
+
+import (
+	datatransfer "github.com/filecoin-project/go-data-transfer/v2"
+	"github.com/filecoin-project/go-data-transfer/v2/channelmonitor"
+	"github.com/filecoin-project/go-data-transfer/v2/channels"
+)
+
+// VerifInternals is a read-only view of manager internals (verification hook, only built
+// with -tags verif).
+type VerifInternals struct {
+	OpenSpans     int
+	StoredOptions int
+	Monitored     []datatransfer.ChannelID
+	Channels      *channels.Channels
+	Monitor       *channelmonitor.Monitor
+	subscribers   func(datatransfer.ChannelID) int
+}
+
+// Subscribers returns the number of per-transfer subscribers for a channel.
+func (v VerifInternals) Subscribers(chid datatransfer.ChannelID) int { return v.subscribers(chid) }
+
+// VerifInternalsOf exposes the internals of a manager built by NewDataTransfer.
+func VerifInternalsOf(dt datatransfer.Manager) (VerifInternals, bool) {
+	m, ok := dt.(*manager)
+	if !ok {
+		return VerifInternals{}, false
+	}
+	return VerifInternals{
+		OpenSpans:     m.spansIndex.VerifOpenSpans(),
+		StoredOptions: m.transportOptions.VerifStored(),
+		Monitored:     m.channelMonitor.VerifMonitored(),
+		Channels:      m.channels,
+		Monitor:       m.channelMonitor,
+		subscribers:   m.channelSubscriptions.VerifSubscribers,
+	}, true
+}
